@@ -154,7 +154,7 @@ func propC10(r *kernel.Run) {
 	var accepted []acceptedRec // requests honored earlier (for replay)
 	var hist []string
 
-	ncases := tp.Range(3, 12)
+	ncases := tp.Range(3, r.Deep(12, 36))
 	for ci := 0; ci < ncases; ci++ {
 		cur := chain[len(chain)-1]
 		// who encrypts
